@@ -113,9 +113,9 @@ class FileCache:
             if not can_cache:
                 logging.warning(f"unable to recover memory for requsted file: {file_name} {memory_usage} {self.max_memory} {self.current_memory_usage}")
             info = self.file_futures.get(file_name)
-            if info is None or (loaded and info[0]):
-                # the entry was unloaded by another client while this task was pending, or (for a load) a write of
-                # the file is pending and the entry belongs to that write: nothing to account
+            if info is None or (loaded and (info[0] or info[-1].done())):
+                # the entry was unloaded by another client while this task was pending, or (for a load) the entry
+                # belongs to a write of the file - pending, or already completed and accounted: nothing to account
                 return
             if can_cache:
                 self.update_file_access_time(file_name)
